@@ -232,6 +232,7 @@ pub struct CodegenContext {
     /// but as long as it changes from pass to pass there is something left to find out for the analysis.
     undefined_in_untaken_branches: HashSet<UndefinedSymbol>,
     prev_undefined_in_untaken_branches: HashSet<UndefinedSymbol>,
+    prev_not_found: HashSet<(IdentifierPath, Option<Span>)>,
     /// A reference that was bound to one symbol while the pass went on to define another one that it should have been
     /// bound to, if any. The layout is started afresh then (see `after_pass`).
     rebound: Option<UndefinedSymbol>,
@@ -315,6 +316,7 @@ impl CodegenContext {
             used: vec![],
             undefined_in_untaken_branches: HashSet::new(),
             prev_undefined_in_untaken_branches: HashSet::new(),
+            prev_not_found: HashSet::new(),
             rebound: None,
             fresh_starts: 0,
             hiding_stale_symbols: false,
@@ -458,10 +460,17 @@ impl CodegenContext {
                 .map(|undefined| (undefined.id.clone(), undefined.span))
                 .collect::<HashSet<_>>()
         };
-        // (a pass without any segment has not defined a single label: it does not count)
+        // (Together with what is not found elsewhere: a name in one of these branches may stand for a constant that is
+        // defined in terms of a label further down, which takes two passes to become known. And a pass without any
+        // segment has not defined a single label: it does not count.)
         if !self.segments.is_empty() {
+            let mut not_found = names_and_places(&undefined_in_untaken_branches);
+            not_found.extend(names_and_places(&self.undefined));
+            let not_found_changed = not_found != self.prev_not_found;
+            self.prev_not_found = not_found;
             if names_and_places(&undefined_in_untaken_branches)
                 != names_and_places(&self.prev_undefined_in_untaken_branches)
+                || (not_found_changed && !undefined_in_untaken_branches.is_empty())
             {
                 if let Some(undefined) = undefined_in_untaken_branches
                     .iter()
